@@ -8,9 +8,11 @@ generator ranges over a map are pinned by Facts/ExpectSites.sites_classified (re
 run with go/types), compile/'s by Facts/ExpectCompile. What the model cannot exhibit — Go's actual
 map iteration, text/template's own key ordering, os.WriteFile — is observed: the harness generates
 each program N times in fresh processes and under permuted link orders and compares file hashes.
-The linker's order dependence (findings D10, D21) is C07's subject and a known finding here.
+The order of the walk over the include graph (finding D93, repaired) is Gen/WalkOrder.lean, tied to the
+code by the fact walk_order_fixed. The linker's order dependence (finding D21) is C07's subject and a known finding here.
 -/
 import ThriftVerif.Gen.Order
+import ThriftVerif.Gen.WalkOrder
 
 namespace ThriftVerif.Properties.C10
 open ThriftVerif.Gen
@@ -33,9 +35,53 @@ theorem merge_result_order_irrelevant {α β : Type} (dest s₁ s₂ : List (α 
     ∀ e, e ∈ s₁ ++ dest ↔ e ∈ s₂ ++ dest :=
   ThriftVerif.Gen.merge_result_order_irrelevant dest s₁ s₂ hp
 
-/-- Non-vacuity: the usual order on Nat is a `KeyOrder`; two iteration orders of one map render alike. -/
-example : KeyOrder (fun a b : Nat => decide (a ≤ b)) :=
+/-- **The walk over the include graph does not depend on map iteration.** `Module.Walk` (since the
+repair of finding D93) appends the includes of a module in the order of their names; for every pair of
+iteration orders of every `Includes` map the modules are visited in the same order — and so are numbered
+alike by the plugin request builder. -/
+theorem walk_order_irrelevant {α : Type} (le : α → α → Bool) (ho : KeyOrder le) (incl₁ incl₂ : Nat → List (α × Nat))
+    (hp : ∀ m, (incl₁ m).Perm (incl₂ m)) (hd : ∀ m, KeysDistinct (incl₁ m)) (fuel : Nat) (q visited : List Nat) :
+    walkSorted le incl₁ fuel q visited = walkSorted le incl₂ fuel q visited :=
+  walkSorted_order_irrelevant le ho incl₁ incl₂ hp hd fuel q visited
+
+/-- **The root services of the plugin request are the same LIST, order included**, for every iteration
+order of the `Includes` and `Services` maps (the property allows the numbering of ids to differ between
+runs, nothing else). -/
+theorem root_services_order_irrelevant {α : Type} (le : α → α → Bool) (ho : KeyOrder le)
+    (incl₁ incl₂ : Nat → List (α × Nat)) (svcs₁ svcs₂ : Nat → List (α × Unit))
+    (hp : ∀ m, (incl₁ m).Perm (incl₂ m)) (hd : ∀ m, KeysDistinct (incl₁ m))
+    (hps : ∀ m, (svcs₁ m).Perm (svcs₂ m)) (hds : ∀ m, KeysDistinct (svcs₁ m)) (fuel root : Nat) :
+    rootServices le incl₁ svcs₁ fuel root = rootServices le incl₂ svcs₂ fuel root :=
+  rootServices_order_irrelevant le ho incl₁ incl₂ svcs₁ svcs₂ hp hd hps hds fuel root
+
+theorem natKeyOrder : KeyOrder (fun a b : Nat => decide (a ≤ b)) :=
   ⟨fun a b c h1 h2 => by simp at *; omega, fun a b => by simp; omega, fun a b h1 h2 => by simp at *; omega⟩
+
+/-- **Witness (D93, repaired): the walk as it was depended on the iteration order.** A root that includes
+`a ↦ 1` and `b ↦ 2`: yielded as a, b the modules are visited 0, 1, 2; yielded as b, a they are visited
+0, 2, 1 — the same map. The repaired walk visits them in one order for both (by the theorem above, whose
+hypotheses this instance meets). -/
+theorem old_walk_order_dependent :
+    let i₁ : Nat → List (Nat × Nat) := fun m => if m = 0 then [(10, 1), (20, 2)] else []
+    let i₂ : Nat → List (Nat × Nat) := fun m => if m = 0 then [(20, 2), (10, 1)] else []
+    (∀ m, (i₁ m).Perm (i₂ m)) ∧ (∀ m, KeysDistinct (i₁ m)) ∧
+    walkUnsorted i₁ 5 [0] [] = [0, 1, 2] ∧ walkUnsorted i₂ 5 [0] [] = [0, 2, 1] ∧
+    walkSorted (fun a b => decide (a ≤ b)) i₁ 5 [0] [] = walkSorted (fun a b => decide (a ≤ b)) i₂ 5 [0] [] := by
+  intro i₁ i₂
+  have hp : ∀ m, (i₁ m).Perm (i₂ m) := by
+    intro m
+    by_cases h : m = 0
+    · simp only [i₁, i₂, h, if_true]; exact List.Perm.swap _ _ _
+    · simp [i₁, i₂, h]
+  have hd : ∀ m, KeysDistinct (i₁ m) := by
+    intro m
+    by_cases h : m = 0
+    · simp [i₁, h, KeysDistinct]
+    · simp [i₁, h, KeysDistinct]
+  exact ⟨hp, hd, by decide, by decide, walkSorted_order_irrelevant _ natKeyOrder i₁ i₂ hp hd 5 [0] []⟩
+
+/-- Non-vacuity: the usual order on Nat is a `KeyOrder`; two iteration orders of one map render alike. -/
+example : KeyOrder (fun a b : Nat => decide (a ≤ b)) := natKeyOrder
 example : ([(3, "c"), (1, "a")] ++ [(2, "b")] : List (Nat × String)).Perm ([(2, "b")] ++ [(3, "c"), (1, "a")]) ∧
     KeysDistinct ([(3, "c"), (1, "a")] ++ [(2, "b")] : List (Nat × String)) :=
   ⟨List.perm_append_comm, by simp [KeysDistinct]⟩
